@@ -365,8 +365,41 @@ pub fn case(t: &mut Tape, ctx: &CaseCtx) -> CaseResult {
     }
 }
 
+/// fixed inputs around the anti-XSSI guard (seeded change C16): the bare guard, the guard without its newline, a
+/// guard whose fifth byte is not a newline in front of a valid document
+fn guard_regressions() -> Vec<(String, Box<dyn Fn() -> CaseResult>)> {
+    let doc = br#"{"response":{"protocol":"3.0","app":[{"appid":"a","status":"ok"}]}}"#.to_vec();
+    let mut v: Vec<(String, Box<dyn Fn() -> CaseResult>)> = vec![];
+    let mut inputs: Vec<(String, Vec<u8>, bool)> = vec![
+        ("bare guard".into(), b")]}'".to_vec(), true),
+        ("guard + newline only".into(), b")]}'\n".to_vec(), true),
+        ("three bytes of the guard".into(), b")]}".to_vec(), true),
+        ("guarded document".into(), [&b")]}'\n"[..], &doc[..]].concat(), false),
+    ];
+    for b in [b'X', b' ', b'\r', b'{', 0u8, 0xff] {
+        inputs.push((format!("guard + byte {b:#x} + document"), [&b")]}'"[..], &[b][..], &doc[..]].concat(), true));
+    }
+    for (label, bytes, must_reject) in inputs {
+        v.push((
+            label.clone(),
+            Box::new(move || {
+                let r = parse_json_response(&bytes);
+                if must_reject && r.is_ok() {
+                    return Err(Failure::new("damaged-prefix-accepted", format!("{label}: accepted {:?}", String::from_utf8_lossy(&bytes)), json!({"input": String::from_utf8_lossy(&bytes)})));
+                }
+                if !must_reject && r.is_err() {
+                    return Err(Failure::new("valid-rejected", format!("{label}: rejected"), json!({"input": String::from_utf8_lossy(&bytes)})));
+                }
+                Ok(CaseReport { key: hash_of(&bytes), nontrivial: true, classes: vec!["fixed_guard_input"], ..Default::default() })
+            }),
+        ));
+    }
+    v
+}
+
 pub fn run(mut run: Run) -> i32 {
     run.replay_committed(&case);
+    run.fixed("regression inputs around the anti-XSSI guard", guard_regressions());
     let n = run.n(100_000, 2_000_000);
     run.random("totality", &[Tape::encode_choice(0, 3)], n, 300, &case);
     run.random("fidelity", &[Tape::encode_choice(1, 3)], n, 400, &case);
